@@ -11,9 +11,9 @@ from harness import tlcrun
 
 def _render(ws, wg):
     out = ["[circus]\ncheck_delay = 0.5\nwarmup_delay = %g\nendpoint = sim://ctrl\npubsub_endpoint = sim://pub\n" % wg]
-    for name, np_, w, ver in ws:
+    for name, np_, w, ver, sing in ws:
         out.append("[watcher:%s]\ncmd = simworker %s v%d\nnumprocesses = %d\nwarmup_delay = %g\ngraceful_timeout = 0.1\n"
-                   % (name, name, ver, np_, w))
+                   % (name, name, ver, np_, w) + ("singleton = True\n" if sing else ""))
     return "\n".join(out)
 
 
@@ -31,7 +31,10 @@ def _scenario(seed, workdir):
 
     rng = random.Random(seed)
     pool = ["a", "b", "c", "x-y"]
-    ws = [(n, rng.choice([1, 2]), rng.choice([0, 1]), 1) for n in rng.sample(pool, rng.choice([1, 2]))]
+    ws = [(n, rng.choice([1, 2]), rng.choice([0, 1]), 1, False) for n in rng.sample(pool, rng.choice([1, 2]))]
+    if rng.random() < 0.4:
+        ws[0] = (ws[0][0], rng.choice([0, 1]), ws[0][2], 1, True)          # a singleton watcher
+    undo = None
     wg = rng.choice([0, 0, 1])          # the global warmup_delay is an integer option
     path = os.path.join(workdir, "c15-%d.ini" % seed)
     with open(path, "w") as fh:
@@ -43,20 +46,36 @@ def _scenario(seed, workdir):
         sim.settle_all()
         for _ in range(rng.randint(2, 4)):
             r = rng.random()
+            if undo is not None:                       # an edit the daemon must refuse is taken back in the next file
+                ws[undo[0]] = undo[1]
+                undo = None
             have = [w[0] for w in ws]
             free = [n for n in pool if n not in have]
             if r < 0.45 and free:
-                ws.append((rng.choice(free), rng.choice([1, 2]), 1, 1))
+                ws.append((rng.choice(free), rng.choice([1, 2]), 1, 1, False))
                 edits.append("add " + ws[-1][0])
             elif r < 0.6 and len(ws) > 1:
                 edits.append("del " + ws.pop(rng.randrange(len(ws)))[0])
             elif r < 0.75 and rng.random() < 0.5 and "A" not in have and "a" in have:
-                ws.append(("A", 1, 1, 1))              # a case variant next to an existing name
+                ws.append(("A", 1, 1, 1, False))       # a case variant next to an existing name
                 edits.append("add A")
+            elif r < 0.88:
+                # numprocesses is the only thing that changes: reload_from_config calls set_numprocesses directly
+                i = rng.randrange(len(ws))
+                n, np_, w, ver, sing = ws[i]
+                # with a case variant present the reload rebuilds watchers from the file (D9R): no negative value then
+                new = rng.choice([v for v in (0, 1, 2, 3, -1, -3) if v != np_ and (v >= 0 or "A" not in have)])
+                if (sing and new > 1) or new < 0:
+                    # refused (singleton) or clamped (negative): the file goes back to a sane value with the next
+                    # edit, so that no watcher is ever BUILT from it (a negative numprocesses in the file a watcher
+                    # is created from is a configuration error outside C01's requests)
+                    undo = (i, ws[i])
+                ws[i] = (n, new, w, ver, sing)
+                edits.append("np %s=%d" % (n, new))
             else:
                 i = rng.randrange(len(ws))
-                n, np_, w, ver = ws[i]
-                ws[i] = (n, np_, w, ver + 1)
+                n, np_, w, ver, sing = ws[i]
+                ws[i] = (n, np_, w, ver + 1, sing)
                 edits.append("chg " + n)
             with open(path, "w") as fh:
                 fh.write(_render(ws, wg))
@@ -80,6 +99,10 @@ def _scenario(seed, workdir):
         sim.close()
 
 
+def run_reload_c01(verdict, tier, seed, scratch):
+    return run_reload_dir(verdict, tier, seed + 17, scratch, prefix="C01_")
+
+
 def _job(args):
     seed, workdir = args
     try:
@@ -89,7 +112,7 @@ def _job(args):
         return {"seed": seed, "error": repr(e) + traceback.format_exc()[-400:], "trace": None}
 
 
-def run_reload_dir(verdict, tier, seed, scratch):
+def run_reload_dir(verdict, tier, seed, scratch, prefix="C15_"):
     import multiprocessing as mp
     n = 60 if tier == "quick" else 1200
     jobs = [(seed * 100003 + i, scratch) for i in range(n)]
@@ -98,7 +121,7 @@ def run_reload_dir(verdict, tier, seed, scratch):
     ok = [r for r in runs if r.get("trace")]
     for r in runs:
         if not r.get("trace"):
-            verdict.machinery.append("C15 reload scenario %s: %s" % (r["seed"], r.get("error")))
+            verdict.machinery.append("reload scenario %s: %s" % (r["seed"], r.get("error")))
     verdicts, st = tlcrun.monitor_traces([r["trace"] for r in ok], scratch)
     hits = {}
     for r, v in zip(ok, verdicts):
@@ -106,10 +129,10 @@ def run_reload_dir(verdict, tier, seed, scratch):
             verdict.machinery.append("no TLC verdict for C15 reload scenario %s" % r["seed"])
             continue
         for c, line, kf in v["bad"]:
-            if not c.startswith("C15_"):
+            if not c.startswith(prefix):
                 continue
             hits[c] = hits.get(c, 0) + 1
-            rep = {"kind": "c15-reload", "seed": r["seed"], "edits": r["edits"], "clause": c, "line": line}
+            rep = {"kind": "c15-reload", "prefix": prefix, "seed": r["seed"], "edits": r["edits"], "clause": c, "line": line}
             what = "%s false at line %d of the reloadconfig scenario %d (edits %s)" % (c, line, r["seed"], r["edits"])
             if kf:
                 verdict.attributed(kf, what, rep)
